@@ -98,6 +98,7 @@ char* const copy_str(const std::string& str)
 #include "vh_pbo.h"
 #include "vh_vfs.h"
 #include "vh_frontends.h"
+namespace vh { std::string verb_cfglex(const std::vector<std::string>& f); std::string verb_cfgast(const std::vector<std::string>& f); }
 
 static std::string handle(const std::string& verb, const std::vector<std::string>& f)
 {
@@ -122,6 +123,8 @@ static std::string handle(const std::string& verb, const std::vector<std::string
         else if (verb == "pp") { return vh::verb_pp(f); }
         else if (verb == "diag") { return vh::verb_diag(f); }
         else if (verb == "op") { return vh::verb_op(f); }
+        else if (verb == "cfglex") { return vh::verb_cfglex(f); }
+        else if (verb == "cfgast") { return vh::verb_cfgast(f); }
         else { return "bad-verb"; }
     }
     catch (const std::exception& ex)
@@ -151,6 +154,12 @@ int main(int argc, char** argv)
     // warm the shared VMs so that forked children inherit them
     vh::cached_vm(vh::regmode::real);
     vh::cached_vm(vh::regmode::synthetic);
+    // A change that makes most cases hang would otherwise cost (number of cases) x (time limit): after VH_MAX_TIMEOUTS
+    // timed-out cases the remaining ones are answered with "timeout-skipped" without being run (the caller runs
+    // timed-out and skipped cases once more, alone, before it believes them).
+    long max_timeouts = 10;
+    if (const char* t = std::getenv("VH_MAX_TIMEOUTS")) { max_timeouts = std::atol(t); }
+    long timeouts = 0;
     std::string line;
     while (std::getline(std::cin, line))
     {
@@ -163,7 +172,12 @@ int main(int argc, char** argv)
         for (size_t i = 2; i < parts.size(); i++) { f.push_back(vh::unhex(parts[i])); }
         std::string out;
         if (nofork) { out = handle(verb, f); }
-        else { out = vh::run_forked([&]() { return handle(verb, f); }, timeout_ms); }
+        else if (timeouts >= max_timeouts) { out = "timeout-skipped"; }
+        else
+        {
+            out = vh::run_forked([&]() { return handle(verb, f); }, timeout_ms);
+            if (out == "timeout") { timeouts++; }
+        }
         std::cout << id << ' ' << vh::esc(out) << '\n';
         std::cout.flush();
     }
